@@ -46,6 +46,10 @@ def check(run):
     for arity in (1, 2, 3):
         for before, during, after in ((1, 0, 1), (2, 1, 1), (1, 2, 0)):
             scs.append(dict(arity=arity, before=before, during=during, after=after, zero=True))
+    # other Once values complete while this one's action is still running and callers wait for it
+    for arity in (1, 2, 3):
+        for before, during, after in ((1, 1, 0), (1, 3, 1), (2, 2, 0), (3, 0, 1)):
+            scs.append(dict(arity=arity, before=before, during=during, after=after, other=True))
     # callers that pass a nil function while / after somebody else's function runs: it must never be called, and they wait and share
     for arity in (1, 2, 3):
         for before, during, after in ((1, 1, 1), (1, 2, 0), (2, 0, 2), (1, 0, 1)):
